@@ -386,21 +386,34 @@ sts_cbc(Source *source, Sink *sink)
     unsigned char buf;
 
     const int rc = source_get_octet(source, &buf);
-    if (rc < 0) {
+    if (rc <= 0) {
+        /* An error, or the source delivered nothing for the moment: there is
+         * no octet to hand on. */
         return (ssize_t)rc;
     }
 
-    return sink_put_octet(sink, buf);
+    /* The octet has left the source. A sink that takes nothing for the moment
+     * is asked again, like sink_adapt() does; otherwise it would be lost. */
+    for (;;) {
+        const int prc = sink_put_octet(sink, buf);
+        if (prc != 0) {
+            return (ssize_t)prc;
+        }
+    }
 }
 
 ssize_t
 sts_n_cbc(Source *source, Sink *sink, const size_t n)
 {
-    for (size_t i = 0u; i < n; ++i) {
+    size_t done = 0u;
+
+    while (done < n) {
         const ssize_t rc = sts_cbc(source, sink);
         if (rc < 0) {
             return rc;
         }
+        /* Zero: nothing was moved this time. */
+        done += (size_t)rc;
     }
 
     return n;
